@@ -9,10 +9,14 @@ Driver cases for the map properties C03 / C11 (OsyrisModel/MapModel.lean):
 "origin" are divided by "den" when it is given):
   ndim, centres [[x,y,z]], sizes [s], layers [{"kind":"scalar","vals":[q|null]} | {"kind":"vector","vals":[[x,y,z]]}],
   origin, u, v, n, dx|null, dy|null, dz|null (unit of the positions), nx, ny, nz|null, op, diag,
-  slab/radial/depth "coded"|"sound", scale, order [idx]|null, eps, spec true|false
+  slab/radial/depth/depth2d "coded"|"sound", scale, order [idx]|null, eps, spec true|false
 answer:
-  model: x, y, nz, zsp, nsel, binned [[q|null]], mask [bool], unitPower, magsExact, slots [[first binned index, isScalar]]
-  spec : cellvals (per cell the binned values), nz, zsp, per pixel: accept / touch (cell indices, only for nz = 1),
+  model: x, y, nz, zsp, nsel, window, binned [[q|null]], mask [bool], unitPower, magsExact, slots [[first binned index, isScalar]],
+         planeOk / radialOk (per loaded cell: does it pass the two pre-selection tests AS CODED), selMargin (smallest relative
+         margin of a pre-selection decision), modelNear / modelAmbig (thick map without dx only: face flags of the model's own
+         depth samples, which are not the Spec's)
+  spec : cellvals (per cell the binned values), nz, zsp, xs, ys, per pixel: accept (cells containing a sample of the column),
+         touch (cells within eps·s, only for nz = 1),
          near, lo / hi per binned layer (reduction of the per-sample minimum / maximum over the containing cells),
          ambig (some sample has two containing cells with different values), empty (no sample has a cell)
 -/
@@ -109,13 +113,14 @@ def parseCase (j : Json) : Option Case := do
   let slab ← selOf j "slab"
   let radial ← selOf j "radial"
   let depth ← selOf j "depth"
+  let depth2d ← selOf j "depth2d"
   let scale := (getRat? j "scale").getD 1
   let order ← match getField? j "order" with
     | none => some none
     | some .null => some none
     | some o => (jsonToNats? o).map some
   let eps := (getRat? j "eps").getD ((1 : Rat) / 1000000000)
-  let cfg : Cfg := { ndim, o, u, v, n, dx, dy, dz, nx, ny, nz, op, diag, slab, radial, depth, scale }
+  let cfg : Cfg := { ndim, o, u, v, n, dx, dy, dz, nx, ny, nz, op, diag, slab, radial, depth, depth2d, scale }
   let mesh : List Cell := (List.zip (List.range centres.length) (List.zip centres sizes)).map fun p =>
     { c := p.2.1, s := p.2.2, vals := binVals cfg layers p.1 }
   pure { cfg, layers, mesh, order, eps, spec := (getBool? j "spec").getD true }
